@@ -49,8 +49,29 @@ def judge(st: Stats, case: Dict[str, Any]) -> None:
         st.sample({"case": tag, "transactions_shown": rows, "fractions_shown": shown}, cap=1)
 
 
+# longer hand-picked histories: a lot partially consumed, another one exhausted, the first one consumed again (under lifo / hifo);
+# one lot consumed by disposals on both sides of the one-year threshold; a sale over three lots
+RICH = [
+    ((D.H.B(1, 2), "="), (D.H.S(1), "d"), (D.H.B(2, 1), "d"), (D.H.S(2), "d")),
+    ((D.H.B(2, 2), "="), (D.H.S(1), "200d"), (D.H.B(1, 2), "d"), (D.H.S(2), "200d"), (D.H.S(1), "d")),
+    ((D.H.B(1, 2), "="), (D.H.B(3, 2, fee="1/4"), "200d"), (D.H.B(2, 1), "200d"), (D.H.S(2), "d"), (D.H.M(2, 1), "y"), (D.H.S(1, typ="GIFT"), "d")),
+    ((D.H.E(1, 1), "="), (D.H.B(2, 1), "d"), (D.H.B(1, 2), "d"), (D.H.S(2), "y"), (D.H.S(1, typ="FEE"), "d"), (D.H.S(1), "d")),
+]
+
+
 def cases(tier: str) -> List[Dict[str, Any]]:
     out: List[Dict[str, Any]] = []
+    for h in RICH:
+        specs = D.specs_for(h, "a")
+        assert specs is not None
+        for second in (None, 0, 1):
+            s2 = D.specs_for(D.SECOND[second], "b") if second is not None else []
+            dates = D.event_dates([specs, s2 or []])
+            for w in D.windows(dates, "few"):
+                for sch in ("fifo", "lifo", "hifo", "fifo->hifo@2021"):
+                    c = D.make_case(h, second, sch, w)
+                    if c:
+                        out.append(c)
     deep = 3
     for h in D.histories(deep):
         specs = D.specs_for(h, "a")
@@ -140,7 +161,7 @@ def main(tier: str, budget_s: Optional[float] = None) -> int:
             "asset B1 = every valid history up to depth 3 over the 9-symbol multi-year alphabet (unique id and note on every row, sheet order "
             "reversed w.r.t. time), asset B2 = fixed histories with the same spreadsheet row numbers; depth <= 2: x 3 second assets x 10 windows "
             "(none / from / to / both, incl. empty and one-day windows) x fifo / hifo / fifo->hifo schedule, and x 6 country-language pairs; "
-            "depth 3: x windows x methods per tier. One evaluation = one real generator run read back and compared (In/Out/Intra tables, summary, "
+            "depth 3: x windows x methods per tier; plus 4 hand-picked histories of 4-6 transactions x 3 second assets x 10 windows x fifo / lifo / hifo / schedule. One evaluation = one real generator run read back and compared (In/Out/Intra tables, summary, "
             "balances and holder totals, average price, detail rows with k/n labels, Summary sheet, Legend). non-trivial = two assets or a filter"
         ),
         "alphabet": [D.H.sym_str(s) for s in D.SYMBOLS],
